@@ -19,8 +19,10 @@ REPO = os.environ.get('VERIF_REPO', '/repo')
 
 # unit -> function -> list of replays
 REGISTRY = {
+    'cont': {'*': [dict(kind='egg', file='replays/cont/nested_containers.egg'), dict(kind='egg', file='replays/cont/nested_containers.egg', args=('--naive',))]},
     'sched': {'*': [dict(kind='egg', file='replays/sched/schedules.egg')]},
-    'merge': {'*': [dict(kind='egg', file='replays/merge/merge_and_subsume.egg')]},
+    'merge': {'*': [dict(kind='egg', file='replays/merge/merge_and_subsume.egg'),
+                    dict(kind='egg', file='replays/merge/extract_skips_subsumed.egg', forbid_out='(Mul (Var "a") (Num 2))', require_out='(Shl (Var "a") (Num 1))')]},
     'semi': {'*': [dict(kind='egg', file='replays/semi/seminaive.egg'), dict(kind='egg', file='replays/semi/seminaive.egg', args=('--naive',))]},
     'uf': {'*': [dict(kind='harness', name='uf_partition')]},
     'disp': {
@@ -45,9 +47,14 @@ def build_egglog(timeout):
     return os.path.join(REPO, 'target', 'debug', 'egglog'), f'built in {time.time() - t0:.0f}s'
 
 
-def run_egg(binary, path, timeout=60, args=()):
+def run_egg(binary, path, timeout=60, args=(), forbid_out=None, require_out=None):
     p = subprocess.run([binary, *args, path], capture_output=True, text=True, timeout=timeout, env=_env())
-    return p.returncode, (p.stdout + p.stderr)[-1500:]
+    rc = p.returncode
+    if rc == 0 and forbid_out and forbid_out in p.stdout:
+        return 1, f'forbidden output `{forbid_out}` printed:\n' + p.stdout[-1200:]
+    if rc == 0 and require_out and require_out not in p.stdout:
+        return 1, f'expected output `{require_out}` missing:\n' + p.stdout[-1200:]
+    return rc, (p.stdout + p.stderr)[-1500:]
 
 
 def run_harness(name, timeout):
@@ -86,7 +93,7 @@ def search(unit, fn, tier):
                     if binary is None:
                         continue
                 path = os.path.join(VERIF, e['file'])
-                rc, out = run_egg(binary, path, args=e.get('args', ()))
+                rc, out = run_egg(binary, path, args=e.get('args', ()), forbid_out=e.get('forbid_out'), require_out=e.get('require_out'))
                 if rc != 0:
                     return dict(found=True, kind='egg', input=open(path).read(), file=path, args=list(e.get('args', ())),
                                 observed=out, note='; '.join(notes),
@@ -143,7 +150,7 @@ def run_all(units, tier='thorough'):
                                 out.append(dict(unit=u, what=e['file'], passed=None, observed=note, how=''))
                                 continue
                         path = os.path.join(VERIF, e['file'])
-                        rc, o = run_egg(binary, path, timeout=600, args=e.get('args', ()))
+                        rc, o = run_egg(binary, path, timeout=600, args=e.get('args', ()), forbid_out=e.get('forbid_out'), require_out=e.get('require_out'))
                         out.append(dict(unit=u, what=e['file'] + ' ' + ' '.join(e.get('args', ())), passed=(rc == 0), observed=o[-800:], kind='egg', file=path, args=list(e.get('args', ())),
                                         how=f'cd {REPO} && cargo build --offline --bin egglog && target/debug/egglog {" ".join(e.get("args", ()))} {path}'))
                     elif e['kind'] == 'harness':
